@@ -10,6 +10,8 @@ from common import *
 CTYPES = [b"application/octet-stream", b"text/plain", b"image/png", b"text/csv; charset=utf-8", b"application/x-custom+json"]
 NAMES = [b"a.txt", b"a b.txt", "résumé.pdf".encode(), b"x" * 70 + b".bin", b'q"uote.txt', b"semi;colon.txt", "文件.txt".encode() * 6]
 PROTOS = [(b"application/pgp-signature", b"pgp-sha256"), (b"application/pkcs7-signature", b"sha-256"), (b"application/pgp-encrypted", b"x")]
+# parameter values are case-sensitive text of the caller: mixed case must come out as given, with generated and with custom boundaries
+PROTOS_MIXED = [(b"application/PGP-Signature", b"PGP-SHA256"), (b"Application/X-Sig", b"SHA-256"), (b"application/PGP-Encrypted", b"x")]
 BCHARS = b"abcdefghijklmnopqrstuvwxyzABCDEFGHIJKLMNOPQRSTUVWXYZ0123456789'()+_,-./:=?"
 
 
@@ -51,10 +53,11 @@ def gen_tree(rng, depth, custom_ok=True, fan=5):
         return d
     kind = rng.choice(["mixed", "alternative", "related", "signed", "encrypted"])
     d = {"t": "M", "kind": kind, "boundary": None, "kids": []}
+    P = PROTOS_MIXED if rng.random() < 0.4 else PROTOS
     if kind == "signed":
-        d["a1"], d["a2"] = PROTOS[rng.randrange(2)]
+        d["a1"], d["a2"] = P[rng.randrange(2)]
     elif kind == "encrypted":
-        d["a1"] = PROTOS[2][0]
+        d["a1"] = P[2][0]
     if custom_ok and rng.random() < 0.35:
         n = rng.choice([1, 2, 8, 40, 70])
         d["boundary"] = bytes(rng.choice(BCHARS) for _ in range(n))
@@ -217,6 +220,9 @@ def delimiter_lines_ok(octets, bounds):
 
 
 def run(ctx):
+    # generated boundaries of multiparts made on different threads (they end up nested into one another) all differ
+    thr = run_impl(["mime.threads\t8\t6", "mime.threads\t2\t1", "mime.threads\t16\t3"])
+    thr_bad = [t for t in thr if len(t.split("\t")) != 2 or t.split("\t")[0] != t.split("\t")[1]]
     rng = ctx.rng
     trees = []
     # exhaustive small: every multipart kind x 0..2 children of every single kind, generated and custom boundary
@@ -224,10 +230,11 @@ def run(ctx):
         for cb in (None, b"=_custom-1"):
             for kids in ([], ["plain"], ["html", "attach"], ["inline", "custom"], ["plain", "M"]):
                 d = {"t": "M", "kind": mk, "boundary": cb, "kids": []}
+                P = PROTOS_MIXED if len(kids) % 2 else PROTOS
                 if mk == "signed":
-                    d["a1"], d["a2"] = PROTOS[0]
+                    d["a1"], d["a2"] = P[0]
                 if mk == "encrypted":
-                    d["a1"] = PROTOS[2][0]
+                    d["a1"] = P[2][0]
                 for k in kids:
                     if k == "M":
                         d["kids"].append({"t": "M", "kind": "alternative", "boundary": None, "kids": [gen_tree(rng, 0), gen_tree(rng, 0)]})
@@ -329,6 +336,9 @@ def run(ctx):
             got = body
         if got != want:
             obad.append((i, "%s: leaf content decodes (%s) to %r..., built from %r..." % (path, c, (got or b"")[:40], want[:40])))
+    ctx.cov["oracle"]["generated_boundaries_differ_across_threads"] = {"runs": thr, "failures": len(thr_bad)}
+    if thr_bad:
+        ctx.violation({"kind": "oracle", "what": "multiparts created on different threads were given the same generated boundary (created / distinct: %s)" % thr_bad[0].replace("\t", " / ")})
     ctx.cov["oracle"]["rfc2046_reader_on_impl_output"] = {"trees_read_back": len(parse_idx), "leaves_decoded": len(dec_reqs), "failures": len(obad)}
     # the tree as the body of a Message, and a part alone versus inside its parent
     sub = [d for d, b in zip(trees, bounds_all) if b is not None and all(x is not None for x in _customs(d))][:400 if ctx.tier == "quick" else 4000]
